@@ -330,7 +330,7 @@ where
         // First we extract all namespace declarations
         for attr in tag.attrs.iter_mut().filter(|attr| {
             attr.name.prefix == Some(namespace_prefix!("xmlns"))
-                || attr.name.local == local_name!("xmlns")
+                || (attr.name.prefix.is_none() && attr.name.local == local_name!("xmlns"))
         }) {
             self.declare_ns(attr);
         }
@@ -338,7 +338,7 @@ where
         // Then we bind those namespace declarations to attributes
         for attr in tag.attrs.iter_mut().filter(|attr| {
             attr.name.prefix != Some(namespace_prefix!("xmlns"))
-                && attr.name.local != local_name!("xmlns")
+                && !(attr.name.prefix.is_none() && attr.name.local == local_name!("xmlns"))
         }) {
             if self.bind_attr_qname(&mut present_attrs, &mut attr.name) {
                 new_attr.push(attr.clone());
